@@ -24,7 +24,7 @@ READS = [1, 7, 512, 4096, 16384, 20000]
 
 def plan(tier, seed):
     units = []
-    reps = 1 if tier == 'quick' else 60
+    reps = 3 if tier == 'quick' else 60
     for rep in range(reps):
         for proto in ('tlcp', 'tls12', 'tls13'):
             for mutual in (False, True):
